@@ -357,7 +357,7 @@ pub fn range(scn: &str, tier: Tier, seed: u64, workers: usize, lo: u64, hi: u64)
 }
 
 fn scratch_dir() -> PathBuf {
-	let d = harness::verif_root().join(".scratch").join(format!("{}", std::process::id()));
+	let d = harness::verif_root().join(".scratch").join(format!("{:010}", std::process::id()));
 	let _ = std::fs::create_dir_all(&d);
 	d
 }
